@@ -21,6 +21,7 @@ CONSTANTS NMsgs,        \* the producers queue the messages 1..NMsgs, in this or
           Snapshot, ClearFirst,
           LostExc,      \* the loss event carries an error (TRUE) or not (FALSE)
           WithUser, WithLost, WithConnector,
+          WithStop,     \* the user calls stop() (= disconnect(), then the pump's stop flag) instead of disconnect() alone
           MaxConn
 
 Msgs == [i \in 1..NMsgs |-> i]
@@ -32,9 +33,10 @@ VARIABLES proto, ptr, open, nconn,
           lpc, lconn,               \* reader thread (connection lost)
           upc, ust,                 \* user disconnect
           kpend, kpc, kconn,        \* connect thread(s): pending reconnect requests
-          written, raised, cbLost, cbMade, reconnects, dropped
+          written, raised, cbLost, cbMade, reconnects, dropped,
+          stopflag                  \* SyncTasks._stop_event
 vars == <<proto, ptr, open, nconn, queue, nextmsg, produced, spc, sst, smsg, lpc, lconn, upc, ust, kpend, kpc, kconn,
-          written, raised, cbLost, cbMade, reconnects, dropped>>
+          written, raised, cbLost, cbMade, reconnects, dropped, stopflag>>
 
 Init ==
   /\ proto = TRUE /\ ptr = 1 /\ open = [c \in 1..MaxConn |-> c = 1] /\ nconn = 1
@@ -44,6 +46,7 @@ Init ==
   /\ upc = (IF WithUser THEN "u0" ELSE "done") /\ ust = 0
   /\ kpend = 0 /\ kpc = "idle" /\ kconn = 0
   /\ written = <<>> /\ raised = {} /\ cbLost = 0 /\ cbMade = 1 /\ reconnects = 0 /\ dropped = <<>>
+  /\ stopflag = FALSE
 
 \* ---- producers and pump (thread-safe deque: append and popleft are atomic) ----
 \* several producer threads: the messages 1..NMsgs are appended in any order, each once
@@ -52,12 +55,19 @@ Produce == /\ nextmsg <= NMsgs
                  queue' = Append(queue, m) /\ produced' = Append(produced, m)
            /\ nextmsg' = nextmsg + 1
            /\ UNCHANGED <<proto, ptr, open, nconn, spc, sst, smsg, lpc, lconn, upc, ust, kpend, kpc, kconn,
-                          written, raised, cbLost, cbMade, reconnects, dropped>>
-Pop ==     /\ spc = "idle" /\ queue # <<>> /\ smsg' = Head(queue) /\ queue' = Tail(queue) /\ spc' = "lock"
+                          written, raised, cbLost, cbMade, reconnects, dropped, stopflag>>
+\* _poll_queue: "while not self._stop_event.is_set():" is read at the top of every round, the queue afterwards
+PTop ==    /\ spc = "idle" /\ spc' = (IF stopflag THEN "exit" ELSE "top")
+           /\ UNCHANGED <<proto, ptr, open, nconn, queue, nextmsg, produced, sst, smsg, lpc, lconn, upc, ust, kpend, kpc, kconn,
+                          written, raised, cbLost, cbMade, reconnects, dropped, stopflag>>
+PIdle ==   /\ spc = "top" /\ queue = <<>> /\ spc' = "idle"                     \* nothing queued: sleep, next round
+           /\ UNCHANGED <<proto, ptr, open, nconn, queue, nextmsg, produced, sst, smsg, lpc, lconn, upc, ust, kpend, kpc, kconn,
+                          written, raised, cbLost, cbMade, reconnects, dropped, stopflag>>
+Pop ==     /\ spc = "top" /\ queue # <<>> /\ smsg' = Head(queue) /\ queue' = Tail(queue) /\ spc' = "lock"
            /\ UNCHANGED <<proto, ptr, open, nconn, nextmsg, produced, sst, lpc, lconn, upc, ust, kpend, kpc, kconn,
-                          written, raised, cbLost, cbMade, reconnects, dropped>>
+                          written, raised, cbLost, cbMade, reconnects, dropped, stopflag>>
 \* ---- Transport.send ------------------------------------------------------------
-SU == <<nconn, queue, nextmsg, produced, smsg, lpc, lconn, upc, ust, kpc, kconn, cbLost, cbMade>>
+SU == <<nconn, queue, nextmsg, produced, smsg, lpc, lconn, upc, ust, kpc, kconn, cbLost, cbMade, stopflag>>
 SCheck ==  \* "if not message or not self.protocol or not self.protocol.transport: return"
   /\ spc = "lock"
   /\ IF proto /\ ptr # 0
@@ -82,7 +92,7 @@ SErrReconnect ==
   /\ spc = "ereconn" /\ kpend' = kpend + 1 /\ reconnects' = reconnects + 1 /\ spc' = "idle"
   /\ UNCHANGED <<proto, ptr, open, sst, written, raised, dropped>> /\ UNCHANGED SU
 \* ---- reader thread: connection_lost(exc) -----------------------------------------
-LU == <<proto, nconn, queue, nextmsg, produced, spc, sst, smsg, upc, ust, kpc, kconn, written, raised, cbMade, dropped>>
+LU == <<proto, nconn, queue, nextmsg, produced, spc, sst, smsg, upc, ust, kpc, kconn, written, raised, cbMade, dropped, stopflag>>
 L0 == /\ lpc = "l0" /\ lconn' = ptr
       /\ open' = IF LostExc /\ ptr # 0 THEN [open EXCEPT ![ptr] = FALSE] ELSE open      \* "if exc: self.transport.serial.close()"
       /\ lpc' = "l1" /\ UNCHANGED <<ptr, kpend, cbLost, reconnects>> /\ UNCHANGED LU
@@ -97,21 +107,26 @@ L3 == /\ lpc = "l3" /\ ptr' = 0                                                 
       /\ lpc' = IF ClearFirst THEN "l2" ELSE "done"
       /\ UNCHANGED <<open, lconn, kpend, cbLost, reconnects>> /\ UNCHANGED LU
 \* ---- user: Transport.disconnect() ---------------------------------------------------
-UU == <<nconn, queue, nextmsg, produced, spc, sst, smsg, lpc, lconn, kpend, kpc, kconn, written, cbLost, cbMade, reconnects, dropped>>
+UU == <<nconn, queue, nextmsg, produced, spc, sst, smsg, lpc, lconn, kpend, kpc, kconn, written, cbLost, cbMade, reconnects, dropped, stopflag>>
+UEnd == IF WithStop THEN "u3" ELSE "done"
 U0 == /\ upc = "u0" /\ ust' = (IF proto THEN ptr ELSE 0) /\ upc' = "u0b"       \* reads protocol and protocol.transport
       /\ UNCHANGED <<proto, ptr, open, raised>> /\ UNCHANGED UU
 U0b == /\ upc = "u0b"
-       /\ IF ust = 0 THEN proto' = FALSE /\ upc' = "done" ELSE proto' = proto /\ upc' = "u1"
+       /\ IF ust = 0 THEN proto' = FALSE /\ upc' = UEnd ELSE proto' = proto /\ upc' = "u1"
        /\ UNCHANGED <<ptr, open, ust, raised>> /\ UNCHANGED UU
 U1 == /\ upc = "u1"                                                                     \* "self.protocol.transport.close()"
       /\ LET c == IF Snapshot THEN ust ELSE ptr IN
          IF c = 0 THEN raised' = raised \cup {"AttributeError in disconnect"} /\ open' = open
                   ELSE open' = [open EXCEPT ![c] = FALSE] /\ raised' = raised
       /\ upc' = "u2" /\ UNCHANGED <<proto, ptr, ust>> /\ UNCHANGED UU
-U2 == /\ upc = "u2" /\ proto' = FALSE /\ upc' = "done"
+U2 == /\ upc = "u2" /\ proto' = FALSE /\ upc' = UEnd
       /\ UNCHANGED <<ptr, open, ust, raised>> /\ UNCHANGED UU
+\* SyncTasks.stop(): "self.transport.disconnect(); self._stop_event.set()"
+U3 == /\ upc = "u3" /\ stopflag' = TRUE /\ upc' = "done"
+      /\ UNCHANGED <<proto, ptr, open, nconn, queue, nextmsg, produced, spc, sst, smsg, lpc, lconn, ust, kpend, kpc, kconn,
+                     written, raised, cbLost, cbMade, reconnects, dropped>>
 \* ---- connect thread ------------------------------------------------------------------
-KU == <<queue, nextmsg, produced, spc, sst, smsg, lpc, lconn, upc, ust, written, raised, cbLost, reconnects, dropped>>
+KU == <<queue, nextmsg, produced, spc, sst, smsg, lpc, lconn, upc, ust, written, raised, cbLost, reconnects, dropped, stopflag>>
 K0 == /\ WithConnector /\ kpc = "idle" /\ kpend > 0 /\ nconn < MaxConn
       /\ IF proto THEN /\ nconn' = nconn + 1 /\ kconn' = nconn + 1 /\ open' = [open EXCEPT ![nconn + 1] = TRUE] /\ kpc' = "k1"
                   ELSE /\ UNCHANGED <<nconn, kconn, open>> /\ kpc' = "idle"           \* "while transport.protocol" is false
@@ -120,8 +135,8 @@ K0 == /\ WithConnector /\ kpc = "idle" /\ kpend > 0 /\ nconn < MaxConn
 K1 == /\ kpc = "k1" /\ ptr' = kconn /\ cbMade' = cbMade + 1 /\ kpc' = "idle"            \* connection_made(new transport)
       /\ UNCHANGED <<proto, open, nconn, kconn, kpend>> /\ UNCHANGED KU
 
-Next == Produce \/ Pop \/ SCheck \/ SWrite \/ SErrClose \/ SErrReconnect
-        \/ L0 \/ L1 \/ L2 \/ L3 \/ U0 \/ U0b \/ U1 \/ U2 \/ K0 \/ K1
+Next == Produce \/ PTop \/ PIdle \/ Pop \/ SCheck \/ SWrite \/ SErrClose \/ SErrReconnect
+        \/ L0 \/ L1 \/ L2 \/ L3 \/ U0 \/ U0b \/ U1 \/ U2 \/ U3 \/ K0 \/ K1
 Spec == Init /\ [][Next]_vars
 
 (***************************************************************************)
@@ -136,9 +151,14 @@ IsSubseqOf(s, t) == \E f \in [1..Len(s) -> 1..Len(t)] :
                         (\A i \in 1..Len(s) : t[f[i]] = s[i]) /\ (\A i, j \in 1..Len(s) : i < j => f[i] < f[j])
 QueueOrder == IsSubseqOf(SentMsgs, produced)
 ExactlyOnceOrDropped ==
-  (spc = "idle" /\ queue = <<>> /\ nextmsg > Len(Msgs)) =>
+  (spc \in {"idle", "top"} /\ queue = <<>> /\ nextmsg > Len(Msgs)) =>
      /\ Len(written) + Len(dropped) = Len(Msgs)
      /\ \A i \in 1..Len(Msgs) : (\E j \in 1..Len(written) : written[j][2] = Msgs[i]) # (\E j \in 1..Len(dropped) : dropped[j] = Msgs[i])
+\* nothing is lost silently and nothing is invented: between two rounds of the pump every message appended so far is
+\* written, dropped by send() or still queued (after stop() what is still queued stays unsent)
+Conservation == spc \in {"idle", "top", "exit"} => Len(written) + Len(dropped) + Len(queue) = nextmsg - 1
+\* after the pump has seen the stop flag nothing is written any more
+NoWriteAfterExit == [][spc = "exit" => written' = written]_vars
 \* C20 flavour: a new connection must not be forgotten by the old reader thread clearing the reference
 NoOrphanedConnection ==
   (lpc = "done" /\ kpc = "idle" /\ kpend = 0 /\ proto) =>
